@@ -34,14 +34,15 @@ def _p(text, ref):
 
 CLAIMED.update({
     "C01": _p("TLC enumerates every well-typed query of the core LINQ profile within the size bound (derivation machine QueryGen), of focused profiles (tuple / dict "
-              "plumbing, lambdas applied on the spot, the ATLAS jet accessors, multi-column rows, conditionals around First(), once-per-event scalars in filtered rows) "
+              "plumbing, lambdas applied on the spot, the ATLAS jet accessors, multi-column rows, conditionals around First(), once-per-event scalars in filtered rows, inner sequences flattened inside a per-object Select) "
               "and random deep derivations over the union of the features; each is translated by the real "
               "code on the three backends, the emitted C++ is compiled unmodified against a model data model and run on TLC-generated events; TLC validates every "
               "observed event (rows, faults) against Denote(q, e).", "DESIGN.md section 5 C01, sections 2-3"),
     "C02": _p("Same enumeration (core, schema, fault, multi-column row, C++-function and random deep profiles): every accepted query's package must be complete (files, executable entry script, no unrendered directive) and "
               "its C++ must compile and link against the model data model and book exactly one tree; judged by TLC on the logged results.", "DESIGN.md section 5 C02"),
     "C03": _p("TLC enumerates all terminal forms x element kinds, with implicit and explicit (AsROOTTTree, right and wrong label counts) trees; the branch list logged by the "
-              "model TTree (names, C++ types, storage identity) and the returned descriptor are validated by TLC against Schema(q); rows confirm the bound storage is what gets filled.",
+              "model TTree (names, C++ types, storage identity) and the returned descriptor are validated by TLC against Schema(q); rows confirm the bound storage is what gets filled; "
+              "rows holding several aggregates and literals side by side check that every column keeps its own kind whatever its neighbours are.",
               "DESIGN.md section 5 C03"),
     "C04": _p("TLC enumerates partial operations (First, index, link dereference, null smart references behind the CMS isNonnull guard, missing bank) under and outside guards "
               "(and / or / conditional / Where, with distinct values in the arms); per event the job must fault exactly when Denote(q, e) "
